@@ -154,7 +154,8 @@ def min_cost_flow[Node](
                     continue
                 for arc in out[u]:
                     v = head[arc]
-                    if residual[arc] > 0 and dist[u] + arc_cost[arc] < dist[v]:
+                    # the margin keeps float rounding (a + c - c != a) from closing a zero-cost cycle of parent arcs
+                    if residual[arc] > 0 and dist[u] + arc_cost[arc] < dist[v] - 1e-12:
                         dist[v] = dist[u] + arc_cost[arc]
                         parent_arc[v] = arc
                         updated = True
@@ -170,6 +171,8 @@ def min_cost_flow[Node](
             arc = parent_arc[node]
             path.append(arc)
             node = head[arc ^ 1]
+            if len(path) > len(nodes):
+                raise ValueError("negative-cost cycle in the residual network")
         path.reverse()
         return path
 
